@@ -262,6 +262,16 @@ func (db *DB) ResyncFromBlobstor(bs common.Storage, onIterationError func(oid.Ad
 		return fmt.Errorf("could not flush remaining objects to metabase: %w", err)
 	}
 
+	// Tombstones go last: whatever order the objects were read in, a tombstone
+	// then sees every stored part of its target and marks all of them.
+	for len(rh.tombstones) > 0 {
+		n := min(len(rh.tombstones), resyncBatchSize)
+		if err := db.PutBatch(rh.tombstones[:n]); err != nil {
+			return fmt.Errorf("could not put tombstones to metabase: %w", err)
+		}
+		rh.tombstones = rh.tombstones[n:]
+	}
+
 	return nil
 }
 
@@ -270,6 +280,8 @@ type resyncHandler struct {
 	onError func(oid.Address, error) error
 	db      *DB
 	batch   []*object.Object
+	// tombstones are put after all other objects, see ResyncFromBlobstor.
+	tombstones []*object.Object
 }
 
 func (rh *resyncHandler) handle(addr oid.Address, data []byte) error {
@@ -290,6 +302,11 @@ func (rh *resyncHandler) handle(addr oid.Address, data []byte) error {
 			zap.String("unmarshalled", objAddrStr),
 			zap.String("expected", expectedAddrStr),
 		)
+	}
+
+	if obj.Type() == object.TypeTombstone {
+		rh.tombstones = append(rh.tombstones, obj.CutPayload())
+		return nil
 	}
 
 	rh.batch = append(rh.batch, obj)
